@@ -39,7 +39,7 @@ void drive_masked(const char* type, const char* opname, const std::vector<Pair<t
             std::array<T, V::width> a, b, res;
             for (unsigned i = 0; i < W; ++i) { const Pair<T>& p = pairs[(base + i + rot * 3) % n]; a[i] = p.a; b[i] = p.b; }
             std::array<bool, V::width> m = mask_pattern<V::width>(k, r);
-            bool ok = false;
+            volatile bool ok = false;
             unsigned focus = (unsigned)(k % W);
             uint32_t cls = pcls((uint64_t)a[focus], (uint64_t)b[focus], bits) | (m[focus] ? 0x800u : 0u);
             VK_GUARDED(cls, ("m=" + bits_str<V::width>(m) + ",a=" + hex(a[focus]) + ",b=" + hex(b[focus])),
@@ -128,7 +128,7 @@ void run(const char* type) {
                     default: x[i] = vals[r.below(nv)]; break;
                 }
             }
-            bool ok = false;
+            volatile bool ok = false;
             unsigned focus = (unsigned)(k % W);
             uint32_t cls = pcls((uint64_t)x[focus], (uint64_t)lo[focus], bits);
             VK_GUARDED(cls, ("x=" + hex(x[focus]) + ",lo=" + hex(lo[focus]) + ",hi=" + hex(hi[focus])), { res = avel::to_array(avel::clamp(V(x), V(lo), V(hi))); ok = true; });
